@@ -235,3 +235,12 @@ Example C06_ads_agrees_on_witnesses :
   emit_ads ads_m = emit_sync ads_m.
 Proof. exact ads_witnesses_l. Qed.
 Print Assumptions C06_ads_agrees_on_witnesses.
+
+(* last one wins also for a parameter that is written twice: [A; B; A] is not [A; B] (the emitted code has three
+   blocks, and when A and B both match the key goes back to A) -- the rule's list must not be de-duplicated *)
+Example C06_relisted_parameter_wins :
+  header_of (relisted_m [relisted_A; relisted_B; relisted_A]) relisted_req = Ok (Some "routing_id=projects/p1") /\
+  header_of (relisted_m [relisted_A; relisted_B]) relisted_req = Ok (Some "routing_id=projects/p1/instances/i1") /\
+  emit_metadata (relisted_m [relisted_A; relisted_B; relisted_A]) <> emit_metadata (relisted_m [relisted_A; relisted_B]).
+Proof. exact relisted_parameter_wins_l. Qed.
+Print Assumptions C06_relisted_parameter_wins.
